@@ -14,7 +14,7 @@ CLAIMED = {
         "exposure loop: readout times, start time, destructive flag, prior bucket contents and written "
         "values are z3 reals/booleans; every feasible path (n<=6 quick, n<=12 thorough readouts, 2x2 frame) "
         "is executed and the clock/bucket-lifecycle clauses are decided by z3 per path; every path witness "
-        "is replayed on the unpatched code (thinned to 40 + every 25th path per task in the quick tier). The scene bucket has symbolic prior content and receives a source at every step; its emptiness is counted over the whole tree.",
+        "is replayed on the unpatched code (thinned to 40 + every 25th path per task in the quick tier). The scene bucket has symbolic prior content and receives a source at every step; its emptiness is counted over the whole tree. IEEE layer of the reset: pixel and charge buffers with arbitrary Float64 contents (NaN, infinities) read exactly zero after Detector.empty() on all four detector types.",
         "Real arithmetic (IEEE rounding, NaN/inf outside); numpy replaced by the vx.symnp stand-in in the "
         "encoded modules; _extract_datatree_2d stubbed during symbolic runs; z3 trusted.",
         "dynamic symbolic execution of the real Python code (own engine vx) + z3 LRA, path-witness replay",
@@ -26,7 +26,7 @@ CLAIMED = {
         "unbounded z3 integers, pixels reals, shapes 1..3 (quick) / 1..4 (thorough) squared for input and detector; "
         "np.intersect1d forks on membership so the finitely many overlap configurations are enumerated by the solver "
         "while the no-overlap half-lines stay symbolic; per path z3 decides pixelwise placement, rejection iff no "
-        "overlap, alignment geometry; freshness: history write A, load, rewrite B, load through the real cache on real files, for seven stat-level rewrite cases (+1 ns, +50 ms, +0.9 s, +1 s, -1 us, -1 s with equal size; equal mtime with size + 1) and three loaders. First sentence (formats): concrete witness layer only - write / read cycles of boundary values for eight dtypes in npy / FITS, scaled FITS and five text layouts through pyxel.inputs.load_image.",
+        "overlap, alignment geometry; freshness: history write A, load, rewrite B, load through the real cache on real files, for seven stat-level rewrite cases (+1 ns, +50 ms, +0.9 s, +1 s, -1 us, -1 s with equal size; equal mtime with size + 1) and three loaders. First sentence (formats): concrete witness layer only - write / read cycles of boundary values for eight dtypes in npy / FITS, scaled FITS and five text layouts through pyxel.inputs.load_image. The loader itself (load_cropped_and_aligned_image) with symbolic offsets on the cached and the un-cached route.",
         "Format decoders (np.load, astropy FITS, text sniffing) are third-party / C code: witness runs, not symbolic. "
         "pyxel.inputs.load_image is a stub reading a symbolic file store in the freshness harness.",
         "dynamic symbolic execution of the real Python code (vx) + z3 LIA/LRA, path-witness replay",
@@ -39,7 +39,7 @@ CLAIMED = {
         "as its own obligation) for every listed (resolution, concrete voltage range): bounds, low/full-scale saturation, "
         "no-wrap for 10 (quick) / 61 (thorough) resolutions, monotonicity for <= 8 / 10 bits; decided by cvc5 (z3 fall-back). "
         "Symbolic voltage range: bug-hunting under a time cap. Real-arithmetic layer: all clauses for every range, every listed "
-        "resolution; SAR bounds/full-scale up to 24 (64) bits, SAR monotone <= 8 (12) bits, zero-noise equivalence (reals, and exact Float64 for concrete range maxima 3.3 / 0.7 V quick, plus 1.8 / 0.2048 / 5.0 V thorough, 4..12 bits); float32 / float16 signal frames: every number parked in a narrow float array is recorded and integers among them must fit the mantissa (side condition that makes the real-arithmetic verdicts valid for those frames).",
+        "resolution; SAR bounds/full-scale up to 24 (64) bits, SAR monotone <= 8 (12) bits, zero-noise equivalence (reals, and exact Float64 for concrete range maxima 3.3 / 0.7 V quick, plus 1.8 / 0.2048 / 5.0 V thorough, 4..12 bits); float32 / float16 signal frames: every number parked in a narrow float array is recorded and integers among them must fit the mantissa (side condition that makes the real-arithmetic verdicts valid for those frames); simple_adc / sar_adc on a detector still holding the image of a lower-resolution conversion (all pairs of storage classes).",
         "NaN inputs excluded; exact-FP verdicts hold for the listed concrete ranges; FP monotonicity beyond 8/10 bits is out of "
         "solver reach (stated), covered only by the real-arithmetic layer; cvc5/z3 trusted.",
         "symbolic execution of the real Python code (vx) to QF_FP / LRA terms, decided by cvc5 and z3",
@@ -62,9 +62,9 @@ CLAIMED = {
         "ParameterValues boundaries, ModelFittingDataTree._set_bound/get_bounds/convert_to_parameters/update_processor and "
         "Processor.set/get executed with symbolic boundary pairs and symbolic decision vectors (1-D and 2-D) for every layout of "
         "1..3 variables (scalar / vector of 1..2 (3) placeholders, shared or per-component boundaries, linear or logarithmic): "
-        "bound vectors, value = dv or 10**dv by owner, inside [lo,hi], slices applied to the right keys, reported == applied.",
+        "bound vectors, value = dv or 10**dv by owner, inside [lo,hi], slices applied to the right keys, reported == applied. Best-individual reporting: the real get_best_individuals on a stub archipelago for all 6 fitness rankings x 1..3 requested individuals (reported parameters are the conversion of the reported decision vectors).",
         "10**x/log10 are uninterpreted functions constrained to be mutually inverse and monotone (real arithmetic); pygmo keeping "
-        "candidates inside the box and xarray packaging of champions are outside.",
+        "candidates inside the box is outside.",
         "dynamic symbolic execution of the real Python code (vx) + z3 LRA+UF",
         "DESIGN.md section 4 C10",
     ),
@@ -77,7 +77,7 @@ CLAIMED = {
         "target[target range], weights), each pair with its own processor, parameter applied.",
         "run_pipeline and xarray.DataArray are recording stand-ins in the accumulation harness (the stand-in frame depends on the seed the run is "
         "given, an unseeded run on a fresh unknown); champion re-simulation is decided at the level of _apply_parameters (same processor, parameter, "
-        "readout and seed-dependent frame as fitness()); champion reporting (_get_champions) is executed against an archipelago stub under pygmo's contract (an island's champion is its best-ever individual and never gets worse): reported == best-ever, hence never worse than before; pygmo honouring that contract is assumed; NaN handling outside (real arithmetic).",
+        "readout and seed-dependent frame as fitness()); settings re-declared through attributes after construction (fit ranges, weights, seed; symbolic) are what run_calibration hands to the fitting problem; champion reporting (_get_champions) is executed against an archipelago stub under pygmo's contract (an island's champion is its best-ever individual and never gets worse): reported == best-ever, hence never worse than before; pygmo honouring that contract is assumed; NaN handling outside (real arithmetic).",
         "dynamic symbolic execution of the real Python code (vx) + z3 LIA/NRA, path-witness replay",
         "DESIGN.md section 4 C11",
     ),
@@ -85,9 +85,9 @@ CLAIMED = {
         "model_checking",
         "Real Charge methods executed with symbolic array values, cluster numbers and cluster positions (any real, including negative and "
         "beyond-range), pixel sizes symbolic (single cluster) or from a stated list: binning on 2x3 / 1x2 geometries with 1..2 clusters, all "
-        "histories of <= 3 operations over {array add, cluster add, read, reset} (+ final read) on a 1x2 geometry, against an independent "
+        "histories of <= 3 operations over {array add, cluster add, read, reset} (+ final read), reset-in-the-middle histories of length 4 and 13 histories with removal by id, on a 1x2 geometry, against an independent "
         "per-pixel accumulator; the binning loop runs un-jitted with numba index semantics, so an index outside the array is a reported event.",
-        "Real arithmetic (positions exactly on pixel borders follow exact floor); removals are outside (the statement does not define them); "
+        "Real arithmetic (positions exactly on pixel borders follow exact floor); removals are covered for the most recently added cluster only; "
         "the cluster table is a real pandas DataFrame holding symbolic cells; numba.njit is the identity during the symbolic run and replays "
         "run the real jitted code with numba bounds checking on.",
         "dynamic symbolic execution of the real Python code (vx) + z3 LRA/LIA, path-witness replay",
@@ -97,7 +97,7 @@ CLAIMED = {
         "model_checking",
         "Every validated field of Geometry / Characteristics / Environment / WavelengthHandling / APDCharacteristics with a symbolic value "
         "(z3 Real/Int, and Float64 terms incl. NaN, +-inf for real-valued fields): constructor accepts <=> attribute setter accepts <=> "
-        "Processor.set (sweep path) accepts <=> documented range (independent table); stored value equals the given one. "
+        "the three sweep routes (Processor.set, Processor.replace, create_new_processor) accept <=> documented range (independent table); stored value equals the given one, an accepted sweep value is the value the new processor holds, a refused value is not stored. "
         "_build_configuration / to_* builders on a mapping with symbolic numeric leaves for 4 detector types x {exposure, observation}: "
         "every attribute of detector, readout, pipeline and parameter list equals its leaf; 3+4 presence flags (128 patterns): exactly one "
         "running mode and one detector.",
@@ -126,7 +126,7 @@ CLAIMED = {
         "on/off patterns: all 45 group pairs x 2 models (16 patterns each), 3 models inside each of the 10 groups, 8 (quick) / 10 (thorough) "
         "groups x 1 model (256 / 1024 patterns), 1..3 readouts, debug on/off, pipelines built from Python objects and from mappings with "
         "group keys reversed / rotated, absent groups as None / [] / missing. Per path the probe trace is compared with the order written "
-        "in the harness from the statement (once per step, disabled never, kwargs terms exact, detector identity). Re-use: a pipeline object that was already run / printed / iterated gets a second symbolic on/off pattern and must execute exactly the models enabled now. Every group also in the three modes that work on copies of the processor: sequential observation, the function each dask worker executes, and the fitness evaluation of calibration.",
+        "in the harness from the statement (once per step, disabled never, kwargs terms exact, detector identity). Re-use: a pipeline object that was already run / printed / iterated gets a second symbolic on/off pattern and must execute exactly the models enabled now. Every group also in the three modes that work on copies of the processor: sequential observation, the function each dask worker executes, and the fitness evaluation of calibration. Every probe is additionally configured with null, zero, empty-text, False and empty-list arguments, which must arrive with their names, types and values.",
         "YAML text parsing, pygmo's evolution loop and dask graph scheduling are outside; an always-enabled helper model initialises the buckets the real "
         "exposure loop needs to build its result.",
         "dynamic symbolic execution of the real Python code (vx) + z3 (Bool/LIA/LRA equalities), path-witness replay",
@@ -138,7 +138,7 @@ CLAIMED = {
         "solver enumerates every feasible crash point (plus the no-fault path) through the real pyxel.run_mode in exposure and sequential "
         "observation (3 runs x 1..3 steps x 2..4 models, 17 exception classes incl. StopIteration and a user subclass; swept values of kind int, float, str, list, bool, numpy float) and through ModelFittingDataTree.fitness: the same exception "
         "object reaches the caller, notes name group and model (and the failing run's parameter values), no result is returned, nothing runs "
-        "after the fault, later runs never start. Solver-found crash points are replayed concretely in the dask path (.load()); calibration mode (initial population and evolution, real pygmo, 1 island) is covered by concrete witness runs over exception classes and fault positions.",
+        "after the fault, later runs never start. Solver-found crash points are replayed concretely in the dask path (.load()); calibration mode (initial population and evolution, real pygmo, 1 island) is covered by concrete witness runs over exception classes and fault positions; the symbolic crash point is also driven through pyxel.run on generated YAML files (exposure and observation).",
         "dask graph execution and pygmo (C++) are concrete witness runs only, not symbolic.",
         "dynamic symbolic execution of the real Python code (vx) + z3 LIA (symbolic crash point), concrete replay for dask",
         "DESIGN.md section 4 C09",
@@ -151,7 +151,9 @@ CLAIMED = {
         "mixed-radix indices, concatenation with the processor's configured values for the other keys, one run per row with columns "
         "consumed left to right; run_index = position; disabled parameters ignored; the parameter array of the parallel path denotes the "
         "same runs (each cell at the coordinates carrying its own values). Labels of the merged result: every path witness is replayed "
-        "through the real run_mode and selected by label.",
+        "through the real run_mode and selected by label. Parallel path per cell: for all orders of three keys (two with colliding short names) the dimension-name "
+        "mapping lists the keys in declaration order and the real dask worker function hands every model the value requested for its own key. Value lists given as "
+        "textual numpy expressions (four expressions, product and sequential mode) yield one run per evaluated value.",
         "Lists are assumed strictly monotone in symbolic runs (pandas sorts index levels); coordinate attachment and xr.merge are "
         "checked on solver-chosen witnesses only; numpy.* range strings and dask execution outside.",
         "dynamic symbolic execution of the real Python code (vx) + z3 (equalities over opaque terms), concrete label replay per path",
@@ -179,7 +181,7 @@ CLAIMED = {
         "state term == initial term, seeded draws do not depend on the prior state (substitution of a fresh initial state). 15 stochastic model "
         "functions on real detectors: restored when seeded (also when the model fails late), draws independent of the prior state, no re-seeding "
         "without a seed; called twice on identical detectors from the same generator state every model consumes the same draws and leaves the same buckets (no process-level memo). Seed plumbing with a symbolic pipeline seed through real run_mode (exposure, sequential observation), the deprecated exposure entry point, the dask worker "
-        "function, fitness(), _apply_parameters and Calibration.run_calibration (archipelago stubbed); the optimiser seed is solver-chosen among 0, 1, 7, 100000 and must reach the archipelago, pygmo's global seed and the attribute unchanged.",
+        "function, fitness(), _apply_parameters and Calibration.run_calibration (archipelago stubbed); the optimiser seed is solver-chosen among 0, 1, 7, 100000 and must reach the archipelago, pygmo's global seed and the attribute unchanged. Nested seeding contexts (a model seed inside a pipeline seed, symbolic seeds, 0..3 draws each); generators created from operating-system entropy are recorded and must not occur under a seed; charge_deposition runs with the shipped stopping-power table.",
         "Bit-identity of results additionally assumes numpy's generator and pygmo are deterministic functions of their seeds; local generators "
         "are not modelled; models needing external files (cosmix, charge_deposition, nghxrg, qe maps) are not exercised; pulse_processing's "
         "deterministic physics is stubbed (170 s per pixel).",
@@ -189,8 +191,8 @@ CLAIMED = {
     "C06": (
         "model_checking",
         "One inductive step from an arbitrary valid state (symbolic detector fields, symbolic 2x2 buckets, detector memory, trapped charge, "
-        "model arguments incl. mutable lists/dicts): new = f(processor, {key: v}) for deepcopy, create_new_processor, Processor.replace, "
-        "update_processor, build_processors and 8 keys; the copy differs from the original in exactly the targeted leaf (== v), shares no "
+        "model arguments incl. mutable lists/dicts, symbolic enabled flags, the caller's Observation with its Readout): new = f(processor, {key: v}) for deepcopy, create_new_processor, Processor.replace, "
+        "update_processor, build_processors and 9 keys (incl. observation.readout.times); the copy differs from the original in exactly the targeted leaf (== v), shares no "
         "object with it, and after the copy is havocked (fresh value in every leaf, arrays mutated in place, mutable arguments appended to, a "
         "model mutating its arguments and the detector memory run through the real _run_single_pipeline) every leaf of the caller's processor "
         "still equals its initial term. The caller's state being invariant under any run, every run starts from the same state.",
@@ -206,7 +208,8 @@ CLAIMED = {
         "which containers are initialised (8 patterns per task quick, all 64 thorough): field-by-field structural equality written in the "
         "harness. The asdf module is a stand-in store (contract: returns the tree it was given); every path witness is additionally replayed "
         "through the real ASDF library on disk. The load_detector model, called directly and inside a pipeline, must replace the running "
-        "detector's buckets by the file's (arbitrary) contents and later models must see them.",
+        "detector's buckets by the file's (arbitrary) contents - also when the same file is loaded a second time after the running detector changed - and later models must see them. "
+        "The processed-data tree has a variable group, a coordinate-only parent and an empty leaf.",
         "HDF5 is outside (h5py not installed); scene / processed-data / 3-D photon contents are concrete; the real ASDF library is exercised "
         "by concrete witness replays only.",
         "dynamic symbolic execution of the real Python code (vx) + z3 equalities, per-path witness replay through the real ASDF library",
@@ -236,7 +239,7 @@ CLAIMED = {
         "photon, which optional buckets are written, debug); each witness is run end-to-end through the real pyxel.run_mode in both result "
         "layouts (and with debug) with a last-in-step probe snapshotting every bucket, and the returned DataTree is compared slice by slice: "
         "values, one slice per readout, absolute-time labels, row/column labels, image dtype, flat == hierarchical, debug does not change the "
-        "result and records the changed bucket. The comparison is concrete: this is exploration on solver-chosen inputs, not a proof.",
+        "result; per model and per step (three-model pipeline, both readout modes) the recorded buckets are those the model changed. The comparison is concrete: this is exploration on solver-chosen inputs, not a proof.",
         "xarray / pandas cannot hold symbolic values, so C03 is not decided symbolically; every step writes the image bucket (real pyxel "
         "cannot merge >= 2 steps otherwise).",
         "concolic input generation with vx + z3 (one witness per path), concrete end-to-end comparison",
@@ -245,7 +248,7 @@ CLAIMED = {
     "C17": (
         "model_checking",
         "The real exposure loop and the real flux-integrating models (uniform / rectangular / elliptic illumination, load_image, stripe_pattern, "
-        "load_charge, simple_conversion without sampling, simple_collection; load_image also as ADU with the photon-transfer conversion; 7 model sets) run on symbolic schedules: start, end and interior "
+        "load_charge, simple_conversion without sampling, simple_collection; load_image also as ADU with the photon-transfer conversion; 7 model sets; exposures on a detector that was exposed before with the same times and another start time) run on symbolic schedules: start, end and interior "
         "readout times, levels, file contents, quantum efficiency (time scales symbolic in the per-model sets). Non-destructive: final pixel frame of "
         "one readout at `end` == final frame of n readouts with symbolic interior points (n <= 4 quick, <= 12 thorough) and == rate x (end - start); "
         "destructive: frame i == rate x (t_i - t_(i-1)) and scaling all intervals by a symbolic lambda scales every frame by lambda. Every path "
